@@ -53,6 +53,16 @@ def strategy(tier):
         pol["cons_jac"] = draw(st.sampled_from(["fresh", "memo"] + (["const", "const"] if r.affine else ["memo"])))
         pol["lag_hess"] = draw(st.sampled_from(["fresh", "memo"] + (["const", "const"] if (r.affine and r.quadratic_obj) else ["memo"])))
         case["policy"] = pol
+        if pol["cons_jac"] == "const" and case["spec"]["m"] > 0 and draw(st.booleans()):
+            # equations only and no scaling: no slack columns are appended and nothing is rescaled, so the one cached
+            # Jacobian object itself travels through the evaluator into every iterate of the solve
+            sp_ = case["spec"]
+            for i in range(sp_["m"]):
+                v = sp_["cl"][i] if np.isfinite(sp_["cl"][i]) else sp_["cu"][i]
+                sp_["cl"][i] = sp_["cu"][i] = v
+            case["scaling"] = {"kind": "none"}
+            if draw(st.booleans()):
+                case["params"]["step_solver_type"] = draw(st.sampled_from(["Standard", "Extended", "Asymmetric"]))
         # the flow-integration solver evaluates the same callbacks through its own code path
         if case["spec"]["n"] <= 3 and draw(st.integers(0, 3)) == 0:
             case["solver"] = "integration"
